@@ -784,6 +784,7 @@ def handle (j : Json) : Except String Json := do
   | "reenc" => reencOp j
   | "key.expand" => pure (toJson (toHex (Usm.expand (← bytesOfJson (← j.getObjVal? "pw")) (← getNat j "n"))))
   | "emit" => emitOp j
+  | "emit.probe" => pure (optBytesJ (Emit.probe (← getInt j "rid")))
   | "conc.run" => concRun j
   | "disco.run" => discoRun j
   | "trap.run" => trapRun j
